@@ -23,15 +23,45 @@ pub fn vx_slice_any<T, F: Fn(&T) -> bool>(s: &[T], f: F) -> (r: bool)
         !r ==> forall|i: int| 0 <= i < s@.len() ==> call_ensures(f, (&#[trigger] s@[i],), false),
 { s.iter().any(f) }
 
-/// an iterator handed out by an unverified accessor, as the sequence it will yield
+/// an iterator handed out by an unverified accessor or built by the adapters below, as the sequence it
+/// will yield. Adapter contracts are operational: they say what the closure *returned* on each element
+/// (call_ensures), which pins the result down for closures whose ensures determine their result.
 #[verifier::external_body]
 #[verifier::reject_recursive_types(T)]
 pub struct VxIter<T> { it: Box<dyn Iterator<Item = T>> }
 
+/// the closure's answers, one per element (skolem functions of the adapter contracts)
+pub uninterp spec fn filter_answers<T>(before: Seq<T>, after: Seq<T>) -> Seq<bool>;
+pub uninterp spec fn filter_map_answers<T, U>(before: Seq<T>, after: Seq<U>) -> Seq<Option<U>>;
+
+/// the elements of s at which keep is true, in order
+pub open spec fn keep_where<T>(s: Seq<T>, keep: Seq<bool>) -> Seq<T>
+    decreases s.len()
+{
+    if s.len() == 0 || keep.len() != s.len() { Seq::empty() }
+    else if keep.last() { keep_where(s.drop_last(), keep.drop_last()).push(s.last()) }
+    else { keep_where(s.drop_last(), keep.drop_last()) }
+}
+/// the Some(..) contents of outs, in order
+pub open spec fn somes<U>(outs: Seq<Option<U>>) -> Seq<U>
+    decreases outs.len()
+{
+    if outs.len() == 0 { Seq::empty() }
+    else if outs.last() is Some { somes(outs.drop_last()).push(outs.last()->Some_0) }
+    else { somes(outs.drop_last()) }
+}
+
 impl<T> VxIter<T> {
     pub uninterp spec fn view(&self) -> Seq<T>;
 
-    /// R-iter: `IT.all(f)`
+    #[verifier::external_body]
+    pub fn next(&mut self) -> (r: Option<T>)
+        ensures
+            old(self)@.len() == 0 ==> r is None && final(self)@ == old(self)@,
+            old(self)@.len() > 0 ==> r == Some(old(self)@[0]) && final(self)@ == old(self)@.skip(1),
+    { unimplemented!() }
+
+    /// Iterator::all
     #[verifier::external_body]
     pub fn all<F: Fn(T) -> bool>(self, f: F) -> (r: bool)
         requires forall|i: int| 0 <= i < self@.len() ==> call_requires(f, (#[trigger] self@[i],))
@@ -40,13 +70,74 @@ impl<T> VxIter<T> {
             !r ==> exists|i: int| 0 <= i < self@.len() && call_ensures(f, (#[trigger] self@[i],), false),
     { unimplemented!() }
 
-    /// R-iter: `IT.any(f)`
+    /// Iterator::any
     #[verifier::external_body]
     pub fn any<F: Fn(T) -> bool>(self, f: F) -> (r: bool)
         requires forall|i: int| 0 <= i < self@.len() ==> call_requires(f, (#[trigger] self@[i],))
         ensures
             r ==> exists|i: int| 0 <= i < self@.len() && call_ensures(f, (#[trigger] self@[i],), true),
             !r ==> forall|i: int| 0 <= i < self@.len() ==> call_ensures(f, (#[trigger] self@[i],), false),
+    { unimplemented!() }
+
+    /// Iterator::filter (predicate takes a reference)
+    #[verifier::external_body]
+    pub fn filter<F: Fn(&T) -> bool>(self, f: F) -> (r: VxIter<T>)
+        requires forall|i: int| 0 <= i < self@.len() ==> call_requires(f, (&#[trigger] self@[i],))
+        ensures
+            filter_answers(self@, r@).len() == self@.len(),
+            forall|i: int| 0 <= i < self@.len() ==> call_ensures(f, (&self@[i],), #[trigger] filter_answers(self@, r@)[i]),
+            r@ == keep_where(self@, filter_answers(self@, r@)),
+    { unimplemented!() }
+
+    /// Iterator::filter_map
+    #[verifier::external_body]
+    pub fn filter_map<U, F: Fn(T) -> Option<U>>(self, f: F) -> (r: VxIter<U>)
+        requires forall|i: int| 0 <= i < self@.len() ==> call_requires(f, (#[trigger] self@[i],))
+        ensures
+            filter_map_answers(self@, r@).len() == self@.len(),
+            forall|i: int| 0 <= i < self@.len() ==> call_ensures(f, (self@[i],), #[trigger] filter_map_answers(self@, r@)[i]),
+            r@ == somes(filter_map_answers(self@, r@)),
+    { unimplemented!() }
+
+    /// Iterator::map
+    #[verifier::external_body]
+    pub fn map<U, F: Fn(T) -> U>(self, f: F) -> (r: VxIter<U>)
+        requires forall|i: int| 0 <= i < self@.len() ==> call_requires(f, (#[trigger] self@[i],))
+        ensures
+            r@.len() == self@.len(),
+            forall|i: int| 0 <= i < self@.len() ==> call_ensures(f, (self@[i],), #[trigger] r@[i]),
+    { unimplemented!() }
+
+    /// Iterator::find (predicate takes a reference): first element on which it returned true
+    #[verifier::external_body]
+    pub fn find<F: Fn(&T) -> bool>(&mut self, f: F) -> (r: Option<T>)
+        requires forall|i: int| 0 <= i < old(self)@.len() ==> call_requires(f, (&#[trigger] old(self)@[i],))
+        ensures
+            match r {
+                Some(e) => exists|i: int| 0 <= i < old(self)@.len() && e == #[trigger] old(self)@[i]
+                    && call_ensures(f, (&old(self)@[i],), true)
+                    && (forall|j: int| 0 <= j < i ==> call_ensures(f, (&#[trigger] old(self)@[j],), false))
+                    && final(self)@ == old(self)@.skip(i + 1),
+                None => final(self)@.len() == 0 && forall|j: int| 0 <= j < old(self)@.len() ==> call_ensures(f, (&#[trigger] old(self)@[j],), false),
+            }
+    { unimplemented!() }
+
+    /// Iterator::last
+    #[verifier::external_body]
+    pub fn last(self) -> (r: Option<T>)
+        ensures self@.len() == 0 ==> r is None, self@.len() > 0 ==> r == Some(self@.last())
+    { unimplemented!() }
+
+    /// Iterator::count
+    #[verifier::external_body]
+    pub fn count(self) -> (r: usize)
+        ensures r == self@.len()
+    { unimplemented!() }
+
+    /// Iterator::collect::<Vec<_>>()
+    #[verifier::external_body]
+    pub fn collect_vec(self) -> (r: Vec<T>)
+        ensures r@ == self@
     { unimplemented!() }
 }
 
@@ -75,3 +166,101 @@ pub fn vx_slice_find<'a, T, F: Fn(&&'a T) -> bool>(s: &'a [T], f: F) -> (r: Opti
             None => forall|j: int| 0 <= j < s@.len() ==> call_ensures(f, (&&#[trigger] s@[j],), false),
         }
 { unimplemented!() }
+
+// ---- verified lemmas about the adapter vocabulary (nothing trusted below) ---------------------------
+
+/// keep_where with the predicate's answers is Seq::filter
+pub proof fn lemma_keep_where_is_filter<T>(s: Seq<T>, keep: Seq<bool>, p: spec_fn(T) -> bool)
+    requires keep.len() == s.len(), forall|i: int| 0 <= i < s.len() ==> keep[i] == p(#[trigger] s[i])
+    ensures keep_where(s, keep) == s.filter(p)
+    decreases s.len()
+{
+    reveal(Seq::filter);
+    if s.len() == 0 {
+        assert(keep_where(s, keep) =~= s.filter(p));
+    } else {
+        assert forall|i: int| 0 <= i < s.drop_last().len() implies keep.drop_last()[i] == p(#[trigger] s.drop_last()[i]) by { assert(s.drop_last()[i] == s[i]); }
+        lemma_keep_where_is_filter(s.drop_last(), keep.drop_last(), p);
+    }
+}
+/// keep_where commutes with taking views
+pub proof fn lemma_keep_where_map<T, U>(s: Seq<T>, keep: Seq<bool>, f: spec_fn(T) -> U)
+    requires keep.len() == s.len()
+    ensures keep_where(s, keep).map_values(f) == keep_where(s.map_values(f), keep)
+    decreases s.len()
+{
+    if s.len() == 0 {
+        assert(keep_where(s, keep).map_values(f) =~= keep_where(s.map_values(f), keep));
+    } else {
+        lemma_keep_where_map(s.drop_last(), keep.drop_last(), f);
+        assert(s.map_values(f).drop_last() =~= s.drop_last().map_values(f));
+        assert(s.map_values(f).last() == f(s.last()));
+        if keep.last() {
+            assert(keep_where(s, keep).map_values(f) =~= keep_where(s.drop_last(), keep.drop_last()).map_values(f).push(f(s.last())));
+        }
+        assert(keep_where(s, keep).map_values(f) =~= keep_where(s.map_values(f), keep));
+    }
+}
+/// every element of a filtered sequence satisfies the predicate and the filtered sequence is a subsequence:
+/// index correspondence used for "last matching paragraph in file order"
+pub proof fn lemma_filter_all<T>(s: Seq<T>, p: spec_fn(T) -> bool)
+    ensures forall|k: int| 0 <= k < s.filter(p).len() ==> p(#[trigger] s.filter(p)[k])
+    decreases s.len()
+{
+    reveal(Seq::filter);
+    if s.len() > 0 { lemma_filter_all(s.drop_last(), p); }
+}
+
+/// Seq::filter unfolded from the front
+pub proof fn lemma_filter_front<T>(s: Seq<T>, p: spec_fn(T) -> bool)
+    requires s.len() > 0
+    ensures s.filter(p) == (if p(s[0]) { seq![s[0]] + s.skip(1).filter(p) } else { s.skip(1).filter(p) })
+    decreases s.len()
+{
+    reveal(Seq::filter);
+    if s.len() == 1 {
+        assert(s.drop_last() =~= Seq::<T>::empty());
+        assert(s.skip(1) =~= Seq::<T>::empty());
+        assert(s.filter(p) =~= (if p(s[0]) { seq![s[0]] + s.skip(1).filter(p) } else { s.skip(1).filter(p) }));
+    } else {
+        lemma_filter_front(s.drop_last(), p);
+        assert(s.drop_last().skip(1) =~= s.skip(1).drop_last());
+        assert(s.skip(1).last() == s.last());
+        assert(s.drop_last()[0] == s[0]);
+        assert(s.filter(p) =~= (if p(s[0]) { seq![s[0]] + s.skip(1).filter(p) } else { s.skip(1).filter(p) }));
+    }
+}
+/// index of the last true in a boolean vector; -1 if none
+pub open spec fn last_true(keep: Seq<bool>) -> int
+    decreases keep.len()
+{
+    if keep.len() == 0 { -1 } else if keep.last() { keep.len() - 1 } else { last_true(keep.drop_last()) }
+}
+pub proof fn lemma_last_true(keep: Seq<bool>)
+    ensures
+        -1 <= last_true(keep) < keep.len(),
+        last_true(keep) >= 0 ==> keep[last_true(keep)] && forall|j: int| last_true(keep) < j < keep.len() ==> !#[trigger] keep[j],
+        last_true(keep) < 0 ==> forall|j: int| 0 <= j < keep.len() ==> !#[trigger] keep[j],
+    decreases keep.len()
+{
+    if keep.len() > 0 && !keep.last() {
+        lemma_last_true(keep.drop_last());
+        assert forall|j: int| last_true(keep) < j < keep.len() implies !#[trigger] keep[j] by { if j < keep.len() - 1 { assert(keep.drop_last()[j] == keep[j]); } }
+        if last_true(keep) < 0 {
+            assert forall|j: int| 0 <= j < keep.len() implies !#[trigger] keep[j] by { if j < keep.len() - 1 { assert(keep.drop_last()[j] == keep[j]); } }
+        }
+    }
+}
+/// the last element kept by keep_where is the element at the last true position
+pub proof fn lemma_keep_where_last<T>(s: Seq<T>, keep: Seq<bool>)
+    requires keep.len() == s.len()
+    ensures
+        last_true(keep) < 0 ==> keep_where(s, keep).len() == 0,
+        last_true(keep) >= 0 ==> keep_where(s, keep).len() > 0 && keep_where(s, keep).last() == s[last_true(keep)],
+    decreases s.len()
+{
+    if s.len() > 0 {
+        lemma_keep_where_last(s.drop_last(), keep.drop_last());
+        lemma_last_true(keep);
+    }
+}
